@@ -60,6 +60,47 @@ def map_sites(P, adt_path, fields):
     return out
 
 
+def ident_paths(P):
+    fn = "expr::Expr::run"
+    M = absint.Machine(P, max_depth=4, opaque={"context::Context::get_expr"})
+    M.inline_loopy_from_root = True
+    paths = M.explore(fn, M.arg_unknowns(fn))
+    return [p for p in paths if L.dom1(p.state, "self*#d") == 0]
+
+
+def bound_identifier_errors(P, rep, key, idp=None):
+    """an identifier that is bound evaluates to what its definition evaluates to: the only ways it can fail are that the definition's
+    own evaluation fails or that the nesting limit is reached — nothing else (no bookkeeping of its own) may turn it into an error"""
+    idp = idp if idp is not None else ident_paths(P)
+    bad = []
+    n = 0
+    for p in idp:
+        if p.exit != "Err":
+            continue
+        found_none = nested_err = depth_guard = False
+        other = []
+        for e, t in p.conds:
+            sh = sx.show(e)
+            if re.match(r"^\(get_expr\(.*\)(@\d+)?#d == 0\)$", sh) and t or re.match(r"^\(get_expr\(.*\)(@\d+)?#d == 1\)$", sh) and not t:
+                found_none = True
+            elif re.match(r"^\(run\w*\(.*\)(@\d+)?#d == 1\)$", sh) and t or re.match(r"^\(run\w*\(.*\)(@\d+)?#d == 0\)$", sh) and not t:
+                nested_err = True
+            elif re.match(r"^\(\(?depth", sh) or re.match(r"^\(0 > ", sh):
+                depth_guard = depth_guard or True
+            elif "self*#d" in sh or "get_expr(" in sh and "#d" in sh:
+                pass
+            else:
+                other.append(sh[:90] + ("" if t else " is false"))
+        n += 1
+        if not (found_none or nested_err) and other:
+            bad.append(other[-1])
+        elif not (found_none or nested_err or depth_guard) and not other:
+            bad.append("an unconditional error")
+    rep.ob(key, not bad and n >= 1,
+           "a bound identifier fails only if its definition's evaluation fails or the nesting limit is reached (%d error paths)" % n if not bad and n >= 1 else
+           ("a bound identifier can fail although its definition evaluates: the error depends on %s" % bad[0] if bad else "no error path of identifier evaluation found"))
+
+
 def run(tier):
     rep = Reporter("C10", tier, "other", "whole-program lower-case typestate on symbol-table keys (field-based flow analysis over resolved MIR) + path rules by abstract interpretation")
     rep.explanation = ("Case-insensitivity is decided as a typestate: every key that reaches one of the five symbol maps must be provably lower-cased, "
@@ -98,6 +139,7 @@ def run(tier):
     some_const = [p for p in idp if p.exit == "Ok"]
     okv = bool(some_const) and all("get_expr(constants*, self*:Ident.0):Some.0" in M.describe(p.state, p.ret[3][0]) for p in some_const)
     rep.ob("C10.bound|value", okv, "a bound identifier evaluates to the looked-up value itself" if okv else "a bound identifier does not evaluate to its looked-up value")
+    bound_identifier_errors(P, rep, "C10.bound|no-other-error", idp)
     fn = "instruction::InstructionOps::get_r8"
     M = absint.Machine(P, max_depth=4)
     paths = M.explore(fn, M.arg_unknowns(fn))
